@@ -284,9 +284,13 @@ def gen_history(rng, ctx):
     swarm = {k: rng.random() < 0.7 for k in
              ('raise', 'interrupt', 'gens', 'reconf', 'mutate', 'headroom')}
     first_fault_bias = rng.random() < 0.5
+    if swarm['mutate'] and rng.random() < 0.1:
+        # the process's very first use of the library is a caller's private,
+        # differently configured Lexer - before the default one exists
+        ops_.append({'op': 'lex_separate', 'which': 'remap'})
     while len(ops_) < n:
         r = rng.random()
-        is_first = not ops_
+        is_first = not [o for o in ops_ if o['op'] != 'lex_separate']
         if is_first and first_fault_bias and (swarm['interrupt']
                                               or swarm['headroom']):
             r = 0.58 if swarm['interrupt'] and rng.random() < 0.6 else 0.97
@@ -394,7 +398,8 @@ def gen_history(rng, ctx):
                     ops_.append({'op': 'lex_clear'})
                 elif k < 0.55:
                     ops_.append({'op': 'lex_set_regex',
-                                 'which': rng.choice(['subset', 'extended'])})
+                                 'which': rng.choice(['subset', 'extended',
+                                                      'remap'])})
                 elif k < 0.8:
                     ops_.append({'op': 'lex_add_kw'})
                 else:
@@ -441,7 +446,8 @@ def gen_history(rng, ctx):
             elif k < 0.7:
                 ops_.append({'op': 're_purge'})
             elif k < 0.85:
-                ops_.append({'op': 'lex_separate'})
+                ops_.append({'op': 'lex_separate',
+                             'which': rng.choice(['tiny', 'remap'])})
             else:
                 ops_.append({'op': 'gc'})
         else:
